@@ -323,7 +323,19 @@ class NearestTargets(FragmentContract):
         out.append(('selected-targets-distinct', O.forall([nn, nn], lambda k, k2: Implies(O.ne(k, k2), O.ne(tk(k), tk(k2))))))
         out.append(('fields-are-those-of-the-selected-target', O.forall([nn, nin, 5], lambda k, t, c: Implies(is_t(k, t), O.eq(R.elem(i, k, c), S.elem(pid, t, c))))))
         out.append(('p-values-non-decreasing', O.forall([nn, nn], lambda k, k2: Implies(k <= k2, R.elem(i, k, 0) <= R.elem(i, k2, 0)))))
-        out.append(('unselected-targets-are-not-nearer', O.forall([nin, nn], lambda t, k: Or(O.exists_box([nn], lambda k2: is_t(k2, t)), S.elem(pid, t, 0) >= R.elem(i, k, 0)))))
+        gs = getattr(getattr(self, '_ctx', None), 'ghost', {}).get('last_argsort') if O.any_sym(nn, nin) else None
+
+        def not_nearer(t, k):
+            goal = Or(O.exists_box([nn], lambda k2: is_t(k2, t)), S.elem(pid, t, 0) >= R.elem(i, k, 0))
+            if gs is not None:
+                # the instance of the argsort axiom at t (rank of target t in the sorted order): already a hypothesis,
+                # named here so that the solver has the term R(t) to instantiate the other axioms with
+                Pf, Rf, N = gs['P'], gs['R'], O.to_z3(gs['N'])
+                tz = O.to_z3(t)
+                inst = z3.Implies(z3.And(0 <= tz, tz < N), z3.And(0 <= Rf(tz), Rf(tz) < N, Pf(Rf(tz)) == tz))
+                return Implies(inst, goal)
+            return goal
+        out.append(('unselected-targets-are-not-nearer', O.forall([nin, nn], not_nearer)))
         out.append(('other-queries-untouched', O.forall([R.shape[0], nn, 6], lambda q, k, c: Implies(O.ne(q, i), O.eq(R.elem(q, k, c), R0.elem(q, k, c))))))
         return out
 
